@@ -14,7 +14,7 @@
        items), [compact_closure] (set_compact_wrapper.wrapper);
      - the code outside the file is [fast_ext]: aggregate_serialization_mappers(cls) is the mapping the model's
        own_key describes, Field.__get__ is getattr_m, <field>.serialize is the model's fast_val (ClassReference.
-       serialize calling the serializer installed on the referenced class), Structure._additional_serialization
+       serialize calling the serializer installed on the class OF THE VALUE), Structure._additional_serialization
        returns {}, first_in the first element. *)
 From Coq Require Import ZArith QArith NArith String Ascii Bool Lia List.
 Import ListNotations.
@@ -100,14 +100,10 @@ Section Embedding.
            end.
 
   (* the functions the file builds, as data *)
-  Definition obj_py (cn : pystr) (fd : tfd) : pyval :=
-    match f_ty fd with TRef c' => ref c' | _ => fd_py cn fd end.
-
   Definition getter_py (cn : pystr) (fd : tfd) : pyval :=
     match getter_of (f_ty fd) with
     | GRaw => fn_val (s2p "_get_value.wrapped") [(s2p "field", fd_py cn fd); (s2p "owner", ref cn)]
-    | GSer => fn_val (s2p "_get_serialize.wrapped")
-                     [(s2p "field", fd_py cn fd); (s2p "obj", obj_py cn fd); (s2p "owner", ref cn)]
+    | GSer => fn_val (s2p "_get_serialize.wrapped") [(s2p "field", fd_py cn fd); (s2p "owner", ref cn)]
     end.
 
   Definition getters (cn : pystr) (m : mapper) (fs : list tfd) : list (pystr * pyval) :=
@@ -146,13 +142,14 @@ Section Embedding.
     | m => PDict (map (fun fd => (PStr (f_name fd), key_py m (f_name fd))) (t_fields c))
     end.
 
-  (* ClassReference.serialize: getattr(self._ty, "serialize", None)(value), every FastSerializable class having its
-     serializer (default flags) installed *)
-  Definition class_ser (call : callfn) (c' : pystr) (x : pyval) : res pyval :=
-    match find_tclass e c' with
-    | Some cd => if t_fast cd then call (ser_closure c' cd (PBool false)) [x] else Raise TypeError
-    | None => Raise Unmodelled
-    end.
+  (* ClassReference.serialize: getattr(value.__class__, "serialize", None)(value) - the serializer of the value's own
+     class, whatever class the field was declared with -, every FastSerializable class having its serializer
+     (default flags) installed *)
+  Definition class_ser (call : callfn) (_ : pystr) (x : pyval) : res pyval :=
+    by_class e (fun rn y => match find_tclass e rn with
+                            | Some cd => call (ser_closure rn cd (PBool false)) [y]
+                            | None => Raise Unmodelled
+                            end) x.
 
   Definition decl_of (attrs : list (pystr * pyval)) : option (tclass * tfd) :=
     match attrs with
@@ -196,7 +193,7 @@ Section Embedding.
       match o, args with
       | PStruct _ attrs, [x] =>
           match decl_of attrs with
-          | Some (_, fd) => fast_val sser ofast e (class_ser call) (f_ty fd) x
+          | Some (_, fd) => fast_val sser ofast (class_ser call) (f_ty fd) x
           | None => Raise Unmodelled
           end
       | _, _ => Raise Unmodelled
@@ -287,7 +284,7 @@ Qed.
 Lemma leaf_attrs_none l a :
   (a = s2p "__get__" \/ a = a_serialize \/ a = s2p "items" \/ a = s2p "_ty") -> alist_get (leaf_attrs l) a = None.
 Proof.
-  intros [H|[H|[H|H]]]; subst; destruct l as [f|cls ms byv|vals|id isn]; reflexivity.
+  intros [H|[H|[H|H]]]; subst; destruct l as [f|cls ms [|]|vals|id isn]; reflexivity.
 Qed.
 
 (* what is needed of the object that stands for an unmodelled field #id (Map, Tuple, Anything, Array without items,
@@ -506,10 +503,7 @@ Section Bridge.
   Qed.
 
   Definition fc_model (n : nat) : pystr -> pyval -> res pyval :=
-    fun c' x => match find_tclass e c' with
-                | Some cd => if t_fast cd then fast_ser sser ofast e n false false c' x else Raise TypeError
-                | None => Raise Unmodelled
-                end.
+    fun _ x => by_class e (fast_ser sser ofast e n false false) x.
 
   (* what a call of the serializer installed on a referenced class returns *)
   Definition call_ok (n : nat) (call : callfn) : Prop :=
@@ -522,30 +516,25 @@ Section Bridge.
     forall c' x, insts_ok e x = true -> fc_model n c' x <> Raise Unmodelled ->
                  class_ser other_obj e call c' x = fc_model n c' x.
   Proof.
-    intros Hc c' x Hx Hn. unfold class_ser, fc_model in *.
-    destruct (find_tclass e c') as [cd|] eqn:Hf; [|reflexivity].
-    destruct (t_fast cd) eqn:Ht; [|reflexivity]. exact (Hc c' cd x Hf Ht Hx Hn).
+    intros Hc c' x Hx Hn. unfold class_ser, fc_model, by_class in *.
+    destruct x as [| | | | | | | | | |rn a| ]; try reflexivity.
+    destruct (find_tclass e rn) as [cd|] eqn:Hf; [|reflexivity].
+    destruct (t_fast cd) eqn:Ht; [|reflexivity]. exact (Hc rn cd (PStruct rn a) Hf Ht Hx Hn).
   Qed.
 
   Lemma fast_val_guard fc1 fc2 :
     (forall c' x, insts_ok e x = true -> fc2 c' x <> Raise Unmodelled -> fc1 c' x = fc2 c' x) ->
-    forall tf v, insts_ok e v = true -> fast_val sser ofast e fc2 tf v <> Raise Unmodelled ->
-                 fast_val sser ofast e fc1 tf v = fast_val sser ofast e fc2 tf v.
+    forall tf v, insts_ok e v = true -> fast_val sser ofast fc2 tf v <> Raise Unmodelled ->
+                 fast_val sser ofast fc1 tf v = fast_val sser ofast fc2 tf v.
   Proof.
     intro Hfc. induction tf as [l|item IH|item IH|c|nf f IH|ls|id o]; intros v Hv Hn; cbn [fast_val] in Hn |- *;
       try reflexivity.
     - destruct v; try reflexivity. cbn [insts_ok] in Hv.
       destruct item as [[f|cls ms byv|vals|id [|]]|i|i|c|nf f|ls|id o]; try reflexivity;
-        try (cbn [bind] in Hn |- *;
-             rewrite (mapM_guard (insts_ok e) _ _ l (fun x Hp Hx => IH x Hp Hx) Hv); [reflexivity|];
-             intro E; apply Hn; rewrite E; reflexivity).
-      (* Array of a class reference: Array.serialize reads the serializer of the class before iterating *)
-      destruct (if class_is_fast e c then Ok tt else Raise AttributeError) as [u|ex]; cbn [bind] in Hn |- *; [|reflexivity].
-      rewrite (mapM_guard (insts_ok e) _ _ l (fun x Hp Hx => IH x Hp Hx) Hv); [reflexivity|].
-      intro E. apply Hn. rewrite E. reflexivity.
+        (cbn [bind] in Hn |- *;
+         rewrite (mapM_guard (insts_ok e) _ _ l (fun x Hp Hx => IH x Hp Hx) Hv); [reflexivity|];
+         intro E; apply Hn; rewrite E; reflexivity).
     - destruct v; try reflexivity. cbn [insts_ok] in Hv.
-      destruct (match item with TRef c => if class_is_fast e c then Ok tt else Raise AttributeError | _ => Ok tt end)
-        as [u|ex]; cbn [bind] in Hn |- *; [|reflexivity].
       rewrite (mapM_guard (insts_ok e) _ _ l (fun x Hp Hx => IH x Hp Hx) Hv); [reflexivity|].
       intro E. apply Hn. rewrite E. reflexivity.
     - exact (Hfc c v Hv Hn).
@@ -617,12 +606,12 @@ Section Bridge.
       rewrite Hf, (find_tfd_nodup _ fd Hn Hin). reflexivity.
     Qed.
 
-    (* field.serialize(val) for the object of a declared field that is not a class reference *)
+    (* field.serialize(val) for the object of a declared field (a class reference included) *)
     Lemma call_ser_field n call cn c fd x :
       call_ok n call -> find_tclass e cn = Some c -> In fd (t_fields c) -> shallow_wf (f_ty fd) = true ->
       insts_ok e x = true ->
-      fast_val sser ofast e (fc_model n) (f_ty fd) x <> Raise Unmodelled ->
-      py_call_method h call xt (fdpy cn fd) a_serialize [x] = fast_val sser ofast e (fc_model n) (f_ty fd) x.
+      fast_val sser ofast (fc_model n) (f_ty fd) x <> Raise Unmodelled ->
+      py_call_method h call xt (fdpy cn fd) a_serialize [x] = fast_val sser ofast (fc_model n) (f_ty fd) x.
     Proof.
       intros Hc Hf Hin Hw Hx Hn. destruct (env_ok_find cn c Henv Hf) as (Hnm & Hok & _).
       unfold class_ok in Hok. apply andb_true_iff in Hok as [Hok _]. apply andb_true_iff in Hok as [_ Hnd].
@@ -661,7 +650,7 @@ Section Bridge.
       if is_none x then Ok PNone
       else match f_ty fd with
            | TLeaf (LSer _ true) => Ok x
-           | tf => fast_val sser ofast e (fc_model n) tf x
+           | tf => fast_val sser ofast (fc_model n) tf x
            end.
 
     Lemma getter_body n call cn c nm a fd :
@@ -686,7 +675,7 @@ Section Bridge.
         unfold field_value in *. set (x := getattr_m c a (f_name fd)) in *.
         destruct (f_ty fd) as [[f|cls ms byv|vals|id [|]]|i|i|c'|nf f|ls|id ob]; try discriminate Hg.
         + (* Number / String / Boolean: Field.serialize is the identity there (the model declines on a Decimal) *)
-          assert (Hv : fast_val sser ofast e (fc_model n) (TLeaf (LPrim f)) x =
+          assert (Hv : fast_val sser ofast (fc_model n) (TLeaf (LPrim f)) x =
                        match x with PNum (NDec _ _) => Raise Unmodelled | _ => Ok x end).
           { destruct f; try discriminate Hg; reflexivity. }
           rewrite Hv in Hn |- *. clear Hv.
@@ -704,21 +693,12 @@ Section Bridge.
         change (py_is_not_none x) with (negb (is_none x)).
         destruct (is_none x) eqn:Hx; cbn [negb bind]; [reflexivity|].
         fold a_serialize.
-        assert (Hm : (match f_ty fd with TLeaf (LSer _ true) => Ok x | tf => fast_val sser ofast e (fc_model n) tf x end)
-                     = fast_val sser ofast e (fc_model n) (f_ty fd) x).
+        assert (Hm : (match f_ty fd with TLeaf (LSer _ true) => Ok x | tf => fast_val sser ofast (fc_model n) tf x end)
+                     = fast_val sser ofast (fc_model n) (f_ty fd) x).
         { destruct (f_ty fd) as [[f|cls ms byv|vals|id [|]]|i|i|c'|nf f|ls|id ob]; try reflexivity. discriminate Hg. }
         rewrite Hm in Hn |- *. clear Hm.
-        unfold obj_py. destruct (f_ty fd) as [l|i|i|c'|nf f|ls|id ob] eqn:Hty;
-          try (rewrite <- Hty in *; rewrite (call_ser_field n call cn c fd x Hc Hf Hin Hw Hxok Hn); destruct (fast_val sser ofast e (fc_model n) (f_ty fd) x); reflexivity).
-        (* a class reference: the class itself is the receiver *)
-        cbn [fast_val] in Hn |- *.
-        assert (Hfast : class_is_fast e c' = true).
-        { specialize (Hrf Hfc). unfold direct_refs_fast in Hrf. rewrite forallb_forall in Hrf.
-          specialize (Hrf fd Hin). rewrite Hty in Hrf. exact Hrf. }
-        unfold class_is_fast in Hfast. unfold fc_model in Hn |- *.
-        destruct (find_tclass e c') as [cd|] eqn:Hf'; [|discriminate Hfast]. rewrite Hfast in Hn |- *.
-        rewrite (call_ser_ref n call c' cd x Hc Hf' Hfast Hxok Hn).
-        destruct (fast_ser sser ofast e n false false c' x); reflexivity.
+        rewrite (call_ser_field n call cn c fd x Hc Hf Hin Hw Hxok Hn).
+        destruct (fast_val sser ofast (fc_model n) (f_ty fd) x); reflexivity.
     Qed.
   
     (* ---------------------------------------------------------------- the dict the serializer builds *)
@@ -732,9 +712,9 @@ Section Bridge.
     Proof. reflexivity. Qed.
 
     Lemma fast_fields_step' n c a fd t :
-      fast_fields (fast_val sser ofast e (fc_model n)) c a (fd :: t) =
+      fast_fields (fast_val sser ofast (fc_model n)) c a (fd :: t) =
       (w <- field_value n c a fd ;;
-       r <- fast_fields (fast_val sser ofast e (fc_model n)) c a t ;; Ok ((own_key (t_mapper c) (f_name fd), w) :: r)).
+       r <- fast_fields (fast_val sser ofast (fc_model n)) c a t ;; Ok ((own_key (t_mapper c) (f_name fd), w) :: r)).
     Proof. reflexivity. Qed.
 
     Lemma getters_eval (F : pyval * pyval -> res (option (pyval * pyval))) call2 n cn c nm a :
@@ -742,9 +722,9 @@ Section Bridge.
       forall fs,
         (forall fd, In fd fs -> field_value n c a fd <> Raise Unmodelled ->
                     call2 (getter cn fd) [PStruct nm a] = field_value n c a fd) ->
-        fast_fields (fast_val sser ofast e (fc_model n)) c a fs <> Raise Unmodelled ->
+        fast_fields (fast_val sser ofast (fc_model n)) c a fs <> Raise Unmodelled ->
         filterM F (kv_py (getters other_obj cn (t_mapper c) fs)) =
-        match fast_fields (fast_val sser ofast e (fc_model n)) c a fs with
+        match fast_fields (fast_val sser ofast (fc_model n)) c a fs with
         | Ok r => Ok (kv_py r)
         | Raise x => Raise x
         end.
@@ -758,7 +738,7 @@ Section Bridge.
       rewrite (Hg fd (or_introl eq_refl) Hx).
       destruct (field_value n c a fd) as [w|ex]; cbn [bind] in Hn |- *; [|reflexivity].
       rewrite IH.
-      - destruct (fast_fields (fast_val sser ofast e (fc_model n)) c a t) as [r|ex]; reflexivity.
+      - destruct (fast_fields (fast_val sser ofast (fc_model n)) c a t) as [r|ex]; reflexivity.
       - intros fd' Hin. apply Hg. right. exact Hin.
       - intro E. apply Hn. rewrite E. reflexivity.
     Qed.
@@ -857,10 +837,10 @@ Section Bridge.
       str_eval. cbn iota. unfold src_create_serializer__serializer.
       unfold clo_get. cbn [alist_get]. str_eval. cbn iota. cbn [bind].
       unfold items_val. rewrite iter_pairs_items. cbn [bind].
-      assert (Hn' : fast_fields (fast_val sser ofast e (fc_model n)) c a (t_fields c) <> Raise Unmodelled).
+      assert (Hn' : fast_fields (fast_val sser ofast (fc_model n)) c a (t_fields c) <> Raise Unmodelled).
       { intro E. apply Hn. rewrite E. reflexivity. }
       rewrite (getters_eval _ call2 n cn c nm a (fun _ _ => eq_refl) (t_fields c) Hg Hn').
-      destruct (fast_fields (fast_val sser ofast e (fc_model n)) c a (t_fields c)) as [r|ex] eqn:Hr; cbn [bind] in Hn |- *;
+      destruct (fast_fields (fast_val sser ofast (fc_model n)) c a (t_fields c)) as [r|ex] eqn:Hr; cbn [bind] in Hn |- *;
         [|reflexivity].
       pose proof (fast_fields_keys _ c a _ r Hr) as Hk. fold (keys_of c) in Hk.
       assert (Hnd : nodupb (map fst r) = true) by (rewrite Hk; exact Hkeys).
@@ -950,7 +930,7 @@ Section Bridge.
     (* the model's fast_ser, one level, with the final compact step apart *)
     Definition ser_dict (n : nat) (sn : bool) (c : tclass) (a : list (pystr * pyval)) : res (list (pyval * pyval)) :=
       _ <- match t_mapper c with MapList => Raise Unmodelled | _ => Ok tt end ;;
-      r <- fast_fields (fast_val sser ofast e (fc_model n)) c a (t_fields c) ;;
+      r <- fast_fields (fast_val sser ofast (fc_model n)) c a (t_fields c) ;;
       Ok (fold_left (fun acc p => dict_set acc (PStr (fst p)) (snd p)) (if sn then r else drop_none r) []).
 
     Lemma fast_ser_S n sn cp cn c nm a :
@@ -964,7 +944,7 @@ Section Bridge.
     Proof.
       intro Hf. cbn [fast_ser]. rewrite Hf. unfold ser_dict. fold (fc_model n).
       destruct (match t_mapper c with MapList => Raise Unmodelled | _ => Ok tt end); cbn [bind]; [|reflexivity].
-      destruct (fast_fields (fast_val sser ofast e (fc_model n)) c a (t_fields c)) as [r|ex]; cbn [bind]; [|reflexivity].
+      destruct (fast_fields (fast_val sser ofast (fc_model n)) c a (t_fields c)) as [r|ex]; cbn [bind]; [|reflexivity].
       unfold dict_of.
       destruct (fold_left (fun acc p => dict_set acc (PStr (fst p)) (snd p)) (if sn then r else drop_none r) [])
         as [|[k0 v0] [|p0 t0]]; reflexivity.
@@ -1396,7 +1376,7 @@ Section Bridge.
       unfold src_get_serialize. fold (fd_py other_obj cn fd) in Hv. unfold agrees in Hv. unfold agrees_v.
       destruct (verify_model (cs_model n) (f_ty fd)) as [[]|x]; cbn [bind] in Hu, Ho |- *; [|rewrite Hv; reflexivity].
       destruct Hv as (h1 & Hi1 & Hv). rewrite Hv. cbn [bind].
-      unfold getter_py, obj_py. rewrite Hg. unfold fd_py.
+      unfold getter_py. rewrite Hg. unfold fd_py.
       destruct (f_ty fd) as [l|i|i|c'|nf f|ls|id ob] eqn:Hty; cbn [tail_model ftf_py with_attrs].
       - (* a leaf that is not a Number / String / Boolean *)
         cbn [tf_fits] in Hfit. apply andb_true_iff in Hfit as [Hl _].
